@@ -1,6 +1,7 @@
 package eng
 
 import (
+	"sort"
 	"fmt"
 	"go/ast"
 	"go/constant"
@@ -144,7 +145,33 @@ func (e *Engine) resolveType(pkg *types.Package, s string) types.Type {
 			panic(specErr{"unknown type " + t.Name})
 		case *ast.SelectorExpr:
 			pn := t.X.(*ast.Ident).Name
-			if p := e.findPkgByName(pkg, pn); p != nil {
+			// several packages may carry the name (e.g. channel and backend/sim/channel): the first one that declares the type
+			var cands []*types.Package
+			if pkg.Name() == pn {
+				cands = append(cands, pkg)
+			}
+			for _, imp := range pkg.Imports() {
+				if imp.Name() == pn {
+					cands = append(cands, imp)
+				}
+			}
+			var names []string
+			for k := range e.Pkgs {
+				names = append(names, k)
+			}
+			sort.Slice(names, func(i, j int) bool {
+				if len(names[i]) != len(names[j]) {
+					return len(names[i]) < len(names[j])
+				}
+				return names[i] < names[j]
+			})
+			for _, k := range names {
+				if p := e.Pkgs[k]; p.Types.Name() == pn {
+					cands = append(cands, p.Types)
+				}
+			}
+			// prefer the non-current package when the type is not declared in the current one
+			for _, p := range cands {
 				if o := p.Scope().Lookup(t.Sel.Name); o != nil {
 					if tn, ok := o.(*types.TypeName); ok {
 						return tn.Type()
@@ -712,6 +739,10 @@ func (c *specCtx) indexVal(v Val, t types.Type, iv Val) (Val, types.Type) {
 				if cc.Spill == nil && cc.V.Elems != nil && int(ci)+sx.Lo < len(cc.V.Elems) {
 					return c.e.flatten(c.st, u.Elem(), cc.V.Elems[sx.Lo+int(ci)]), u.Elem()
 				}
+				if cc.Spill == nil && cc.V.Elems != nil && ci >= 0 {
+					// beyond the end of the local array: an unspecified value (such reads are guarded by a length test in the spec)
+					return c.e.freshVal(c.st, u.Elem(), "spec_oob"), u.Elem()
+				}
 			}
 			c.fail("symbolic index into local array slice in spec")
 		}
@@ -834,6 +865,14 @@ func (c *specCtx) call(n *SCall) (Val, types.Type) {
 		}
 		ls := Leaves(T)
 		if len(ls) != 1 || ls[0].Sort != SInt {
+			// boxed payload of a composite dynamic type: its leaves live in the Box heap classes at the payload reference
+			out := Val{T: make([]*Term, len(ls))}
+			for i, l := range ls {
+				out.T[i] = tb.Select(c.H("Box:"+typeKey(T)+l.Path, ArrOf(l.Sort)), v.ifVal())
+			}
+			return out, T
+		}
+		if false {
 			c.fail("as: only scalar/pointer dynamic types are supported")
 		}
 		return scalar(v.ifVal()), T
@@ -891,6 +930,10 @@ func (c *specCtx) call(n *SCall) (Val, types.Type) {
 		}
 		kk := c.e.mapKey(c.st, it.KeyT, k)
 		return scalar(tb.Select(it.Dom, kk)), boolType
+	case "bytelen":
+		// bytelen(x): length of the big-endian byte representation of the non-negative integer x ((*big.Int).Bytes)
+		v, _ := arg(0)
+		return scalar(tb.App("bigbytelen", SInt, v.T[0])), untypedInt
 	case "streaming":
 		// streaming(): whether reader contents are modelled as a byte stream in this run (content clauses are conditional on it)
 		if c.e.Opts.StreamModel {
